@@ -48,13 +48,19 @@ const ATOM_CACHE_SIZE: usize = 256;
 
 #[derive(Debug, Clone)]
 pub struct AtomCache {
+    /// Atom references of the distribution header being decoded, by position in that header.
+    /// This is what an ATOM_CACHE_REF index inside a term refers to.
     atoms: HashMap<u8, Atom>,
+    /// The connection's atom cache proper: (segment index << 8 | internal index) -> atom.
+    /// It persists across messages and is only read and written by distribution headers.
+    slots: HashMap<u16, Atom>,
 }
 
 impl AtomCache {
     pub fn new() -> Self {
         Self {
             atoms: HashMap::with_capacity(ATOM_CACHE_SIZE),
+            slots: HashMap::new(),
         }
     }
 
@@ -548,6 +554,9 @@ fn parse_dist_header_with_cache<'a>(
         (long_atoms_flag_byte & 0x10) != 0
     };
 
+    // References are valid for this message only.
+    cache.atoms.clear();
+
     for i in 0..num_atom_cache_refs {
         let (new_input, internal_segment_index) = be_u8(input)?;
         input = new_input;
@@ -560,6 +569,8 @@ fn parse_dist_header_with_cache<'a>(
         };
 
         let is_new_entry = (flag_nibble & 0x08) != 0;
+        let segment_index = flag_nibble & 0x07;
+        let slot = ((segment_index as u16) << 8) | internal_segment_index as u16;
 
         if is_new_entry {
             let (new_input, atom_len) = if long_atoms {
@@ -576,12 +587,21 @@ fn parse_dist_header_with_cache<'a>(
                 .map_err(|_| nom::Err::Failure(NomError::new(input, ErrorKind::Char)))?;
 
             log::debug!(
-                "Inserting atom '{}' at cache index {}",
+                "Inserting atom '{}' at cache slot {} (reference {})",
                 atom_str,
-                internal_segment_index
+                slot,
+                i
             );
-            cache.insert(internal_segment_index, Atom::new(atom_str));
+            let atom = Atom::new(atom_str);
+            cache.slots.insert(slot, atom.clone());
+            cache.atoms.insert(i, atom);
             input = new_input;
+        } else if let Some(atom) = cache.slots.get(&slot) {
+            let atom = atom.clone();
+            cache.atoms.insert(i, atom);
+        } else {
+            log::error!("Atom cache slot {} referenced before it was filled", slot);
+            return Err(nom::Err::Failure(NomError::new(input, ErrorKind::Tag)));
         }
     }
 
